@@ -1442,7 +1442,10 @@ func NewPointFromBytes(b []byte) (Point, error) {
 				return nil, fmt.Errorf("unable to unmarshal field %s: %s", string(iter.FieldKey()), err)
 			}
 		case String:
-			// Skip since this won't return an error
+			// StringValue strips the surrounding quotes without looking: both must be there.
+			if v := p.it.valueBuf; len(v) < 2 || v[len(v)-1] != '"' {
+				return nil, fmt.Errorf("unable to unmarshal field %s: invalid string value %q", string(iter.FieldKey()), v)
+			}
 		case Boolean:
 			_, err := iter.BooleanValue()
 			if err != nil {
